@@ -24,7 +24,8 @@ RULE = ("wallets from all constructors x both networks x accounts/intervals as C
         "against the ground-truth secret set (reference model: mnemonic, passphrase, seed, master/account/row scalars, WIF x4, "
         "xprv x6, all BIP85 outputs) plus every secret-classified leaf of the unfiltered output, by equality, substring, "
         "Base58Check classification and BIP39-run detection; CLI --paranoia runs (stdout and -f file) go through the same "
-        "oracle; distinct = distinct (monitor, case) digests")
+        "oracle; distinct = distinct (monitor, case) digests"
+        " EXTENSIONS: + export faults after validation (trailing slash, dangling symlink, missing directory) with stdout / stderr / files scanned, one in-process CLI run of 2^15+600 rows per block in fast mode, every output channel for every constructor")
 LEVEL_TEXT = ("The real filter's output (in-process and through the CLI) is scanned leaf by leaf by an independent secret "
               "classifier fed with ground truth recomputed from the seed, so a leak under a key unknown today, inside a longer "
               "string or at another nesting depth is still seen; the public part must be identical to the unfiltered output.")
@@ -273,6 +274,52 @@ def judge_cli(ctx, case):
         shutil.rmtree(d, ignore_errors=True)
 
 
+def judge_cli_huge(ctx, case):
+    """The CLI with --paranoia and an interval of 2^15 + 600 rows, run in-process in fast mode (inject.FastEC): every row of
+    every block has three columns and no string anywhere decodes to a private-key encoding (whatever batches, streams or
+    pages a long listing internally: the filter has to cover all of it)."""
+    from .c20 import run_inproc
+    from .. import inject
+    import btc_hd_wallet.bip32 as b32
+    n, tn = case["n"], case["testnet"]
+    d = tempfile.mkdtemp(prefix="vp-c15h-")
+    try:
+        argv = ["--paranoia", "--interval", "0", str(n)] + (["--testnet"] if tn else []) + ["from-bip39-seed", case["seed"].hex()]
+        with inject.FastEC([b32]):
+            res = run_inproc(argv, d, {})
+        if res["rc"] != 0:
+            return ctx.judge("cli_paranoia", False, case, "exit 0", {"rc": res["rc"], "stderr": res["stderr"][-300:], "exc": repr(res["exc"])},
+                             cls="cli|huge|failed", mech="C15.cli.failed")
+        try:
+            filt = json.loads(res["stdout"])
+        except ValueError as ex:
+            return ctx.judge("cli_paranoia", False, case, "JSON", str(ex), cls="cli|huge|notjson", mech="C15.cli.notjson")
+        bad = []
+        for name, blk in filt.items():
+            if name not in ("BIP44", "BIP49", "BIP84"):
+                bad.append(("unexpected_block", name))
+                continue
+            if set(blk.get("account_extended_keys", {})) - {"path", "pub"}:
+                bad.append(("account_keys", sorted(blk["account_extended_keys"])))
+            rows = blk.get("groups", [])
+            if len(rows) != n:
+                bad.append(("row_count_%s" % name, n, len(rows)))
+            for j, row in enumerate(rows):
+                if len(row) != 3:
+                    bad.append(("row_columns_%s" % name, j, len(row)))
+                    break
+        if not bad:
+            for leaf in leaves(filt, []):
+                c = raddr.classify_string(leaf)
+                if c["class"] in ("wif", "xprv"):
+                    bad.append(("private_encoding", leaf[:16]))
+                    break
+        return ctx.judge("cli_paranoia", not bad, case, "3-column rows only, no private encoding", bad[:3],
+                         cls="cli|huge|n%d|%s" % (n, "test" if tn else "main"), mech="C15.cli." + (str(bad[0][0]).split("_BIP")[0] if bad else ""))
+    finally:
+        shutil.rmtree(d, ignore_errors=True)
+
+
 def gen_case(rnd, j):
     from .c06 import gen_case as g6
     case = g6(rnd, j)
@@ -307,9 +354,13 @@ def run(ctx):
         judge_cli(ctx, {"entropy": gen.rbytes(rnd, 16), "passphrase": "0OIl-marker-passphrase", "testnet": bool(j & 1), "account": rnd.choice([0, 3]),
                         "start": 5, "end": 8, "to_file": True, "file_fault": ("trailing-slash", "dangling-symlink", "parent-removed")[j % 3],
                         "source": ["from-mnemonic", "from-entropy-hex", "from-master-xprv"][(j // 3) % 3], "purpose": 44})
+    if ctx.mine_once(5):
+        judge_cli_huge(ctx, {"seed": gen.rbytes(rnd, 64), "testnet": bool(ctx.seed & 1), "n": (1 << 15) + 600 if not ctx.thorough else (1 << 16) + 600})
 
 
 def replay(ctx, monitor, case):
+    if monitor == "cli_paranoia" and case.get("n", 0) > 20000:
+        return judge_cli_huge(ctx, case)
     if monitor == "cli_paranoia":
         judge_cli(ctx, case)
     elif monitor == "channels":
